@@ -189,7 +189,10 @@ def run_case(case):
             elif kind == "bad_cipherlen":
                 key, m = B(case["key"]), B(case["m"])
                 c = cls(key_length=len(key)).Encrypt(key, m)
-                ske = cls(key_length=len(key), cipher_length=case["declared"])
+                try:
+                    ske = cls(key_length=len(key), cipher_length=case["declared"])
+                except ValueError:
+                    return   # a declared cipher length no ciphertext can have is refused at construction: also a refusal
                 expect_value_error(lambda: ske.Decrypt(key, c), "Decrypt(cipher length != declared)")
             elif kind == "bad_alias":
                 expect_value_error(lambda: get(case["alias2"]), "get_symmetric_encryption_implementation(unknown)")
@@ -299,6 +302,15 @@ def _length_cases(tier, seed):
                 ops += [["dec", 0, 0], ["dec", 1, 1], ["enc", 0, 0], ["enc", 1, 1], ["dec", 0, 1], ["dec", 1, 0]]
                 yield {"kind": "history", "alias": "AES-CBC", "seed": seed + depth, "keys": ks, "msgs": [b"first message".hex(), (b"x" * 32).hex()],
                        "ops": ops}
+    # declared-length breaches around every declared length 0..48: the empty message/ciphertext, one byte / one block off
+    for d in range(0, 49):
+        key = (hashlib.sha256(b"contract%d" % d).digest() * 2)[:(16, 24, 32)[d % 3]]
+        for actual in sorted({0, 1, d - 1, d + 1, d + 16} - {d, -1}):
+            yield {"kind": "bad_msglen", "alias": "AES-CBC", "seed": seed + d, "key": key.hex(), "m": (b"m" * actual).hex(), "declared": d}
+        real = 16 + 16 * (d // 16 + 1)
+        for declared in sorted({0, 16, real - 16, real + 16, real - 1, real + 1} - {real}):
+            if declared >= 0:
+                yield {"kind": "bad_cipherlen", "alias": "AES-CBC", "seed": seed + d, "key": key.hex(), "m": (b"m" * d).hex(), "declared": declared}
     for klen in (16, 24, 32):
         yield {"kind": "fresh_many", "alias": "AES-CBC", "seed": seed + klen, "key": (hashlib.sha256(b"fm%d" % klen).digest() * 2)[:klen].hex(),
                "m": b"same message".hex(), "count": 1100}
